@@ -1,9 +1,8 @@
 // unit int_div_ops: integer/src/div_ops.rs `mod repr` (representation-level dispatch of / % div_rem) and the
 // integer/src/div/mod.rs glue between it and the verified kernels (C02, C16, C19).
 // Trusted: lib/repr_stubs.rs (Buffer / Repr contracts), lib/div_dword_stubs.rs (num_modular 3by2 divisor),
-// lib/div_ops_stubs.rs (MemoryAllocation / Memory / Layout, Buffer::erase_front, ASSUMED contract of the
-// divide-and-conquer branch `divide_conquer::div_rem_in_place`); kernel contracts are the ones PROVED in units
-// int_div_word, int_div_dword, int_shift, int_div_simple (//@@ SIG from the same annotated copies).
+// lib/div_ops_stubs.rs (MemoryAllocation / Memory / Layout, Buffer::erase_front); kernel contracts are the ones PROVED in
+// units int_div_word, int_div_dword, int_shift, int_div_simple, int_div_dc (//@@ SIG from the same annotated copies).
 #![allow(unused_imports, unused_variables, dead_code, non_snake_case, unused_mut, unused_parens, unused_braces)]
 use vstd::prelude::*;
 verus! {
@@ -11,6 +10,7 @@ verus! {
 //@@ INCLUDE lib/sign.rs
 //@@ INCLUDE lib/repr_stubs.rs
 //@@ INCLUDE lib/div_dword_stubs.rs
+//@@ INCLUDE lib/div_post_spec.rs
 //@@ INCLUDE lib/div_ops_stubs.rs
 //@@ INCLUDE lib/shift_bv.rs
 //@@ INCLUDE lib/div_word_lemmas.rs
@@ -34,9 +34,15 @@ use super::super::*;
 //@@ SIG integer/div_simple/div_rem_in_place.rs
 }
 pub(crate) use simple::div_rem_highest_word;
-pub use super::div_dc_stub::{divide_conquer, memory_requirement_exact};
-/// integer/src/div/mod.rs:20 (both branches of the switch carry the same contract: the value is immaterial here)
-const THRESHOLD_SIMPLE: usize = 32;
+pub use super::div_dc_stub::memory_requirement_exact;
+/// integer/src/div/mod.rs:20
+pub const THRESHOLD_SIMPLE: usize = 32;
+pub mod divide_conquer {
+use super::super::*;
+use super::super::div;
+// contract PROVED in unit int_div_dc
+//@@ SIG integer/div_dc/div_rem_in_place.rs
+}
 //@@ FN integer/div_glue/normalize.rs
 //@@ FN integer/div_glue/div_rem_in_place.rs
 //@@ FN integer/div_glue/div_rem_unshifted_in_place.rs
